@@ -23,7 +23,7 @@ func init() {
 		Patterns: pats,
 		Explanation: "A pairing table is built from the repository itself: every Increase()/Decrease() on a types.Resource and every Inc/Dec on a gauge field named *Active is a site, keyed by counter (resource kind, or owner+gauge). Every increment site must be matched with decrement site(s) of the same counter in its package by exactly one recognised idiom, and every decrement site must belong to a pair: " +
 			"I1 listener-paired (increment control-equivalent with stream.AddEventListener(L) in NewStream; decrement unconditional in L.OnDestroyStream, which BaseStream runs once behind its CAS); I2 CAS-paired (increment in the stream constructor, decrement in a function called only behind a one-shot CompareAndSwap); I3 token-paired (a token set with the increment, decrement only under the token, token cleared); I4 event-paired (increment on the success continuation of Connect / together with registering the connection event listener; decrement under event.IsClose(), and connection.Close emits its event behind a one-shot CAS and only for an established connection). " +
-			"Overflow returns are reached before any increment; CanCreate compares cur < max with max==0 unlimited.",
+			"Overflow returns are reached before any increment; CanCreate compares cur < max with max==0 unlimited. (PAIR, retry state) every store of nil into downStream.retryState is preceded by retryState.reset() on every path on which the state is non-nil.",
 		Run: runC10,
 	})
 }
